@@ -160,7 +160,8 @@ func C13(cfg sut.Cfg, small, ample sut.Driver, buf []byte, ret int, err sipsp.Er
 	if ret != aret || err != aerr {
 		return fmt.Sprintf("verdict (%d,%d %q) with the caller's capacities, (%d,%d %q) with ample ones", ret, err, err, aret, aerr, aerr)
 	}
-	if !definitive || sut.IsError(err) {
+	// values are compared on successful verdicts ("for all successfully parsed inputs")
+	if !definitive || !(err == sipsp.ErrHdrOk || err == sipsp.ErrHdrMoreValues || err == sipsp.ErrHdrEOH) {
 		return ""
 	}
 	switch s := small.(type) {
